@@ -5,9 +5,9 @@ grammatical programs (genprog), (c) near-grammatical mutants, (d) arbitrary byte
 test/fuzz seeds; inputs valid / JSONL / malformed / empty; 0-2 selectors.  The oracle is the property itself:
 the outcome of lang.EvalProgram is ok, syntax, runtime or json -- never a leaked signal (`raw`), a panic, a
 dead process -- and GetRootJson does not panic afterwards.  extra() runs a sample through the real binary."""
-import os, json
+import os, json, re
 from framework import Check, Case
-from jqlib import run_case, simple_run, RunRes, BUILD, run_impl
+from jqlib import run_case, simple_run, RunRes, BUILD, VERIF, run_impl
 import genprog
 from checklib import (ANY, abnormal, run_cli, Scratch, pmap, prescreen, tokens, LEGAL)
 
@@ -107,6 +107,125 @@ INSERT_TOKENS = ["next", "exit", "return", "break", "continue", "BEGIN", "END", 
                  "\"", "'", "/", "\\", "1", "x", ".", "+", "++", "--", "_", "null", "0x", "1e5", "@", "#", "\x00", "\udcff", "é"]
 
 
+# ---- recursion that runs into the call-depth limit: which frame is the one too many (a function's, a match case's)
+# depends on the shape and on the number of frames below the recursion, so every shape is entered at every offset
+RUNAWAY_FUNCS = [
+    "function f(n) { return f(n + 1) }",
+    "function f(n) { f(n) }",
+    "function f(n) { return match (n) { 0 => 0, x => f(n) } }",
+    "function f(n) { match (n) { q => { f(q) } } }",
+    "function f(n) { match (n) { q => { return f(q) } } }",
+    "function f(n) { return [f(n)] }",
+    "function f(n) { return g(n) }\nfunction g(n) { return match (n) { _ => f(n) } }",
+    "function f(n) { return match (n) { _ => match (n) { _ => f(n) } } }",
+    "function f(n) { return match (n) { _ => match (n) { _ => match (n) { _ => f(n) } } } }",
+    "function f(n) { for (v in [1]) { x = match (v) { 1 => f(n) } } }",
+    "function f(n) { return match (n) { _ => f(n) } + 1 }",
+    "function f(n) { return match ([n, n]) { [a, b] => f(a), _ => 0 } }",
+    "function f(n) { while (true) { x = match (n) { _ => { f(n)\n break } } } }",
+    "function f(n) { print match (n) { _ => f(n) } }",
+    "function f(n) { return f(match (n) { _ => n }) }",
+    "function f(n) { return match (f(n)) { _ => 1 } }",
+]
+# (template with %s for the call f(1), frames below the recursion)
+RUNAWAY_ENTRIES = [
+    ("BEGIN { print \"start\"\n print %s\n print \"done\" }", 0),
+    ("{ print \"start\"\n x = %s\n print \"done\" }", 0),
+    ("END { print \"start\"\n %s\n print \"done\" }", 0),
+    ("BEGINFILE { print \"start\"\n x = [%s]\n print \"done\" }", 0),
+    ("ENDFILE { print \"start\"\n x = %s\n print \"done\" }", 0),
+    ("%s { print \"body\" }\nEND { print \"end\" }", 0),
+    ("BEGIN { print match (1) { 1 => %s } }", 1),
+    ("{ print match ($) { _ => %s } }", 1),
+    ("BEGIN { match (1) { 1 => { print \"m\"\n x = %s } } }", 1),
+    ("function w1(n) { return %s }\nBEGIN { print w1(1) }", 1),
+    ("function w1(n) { return %s }\n{ print w1($) }", 1),
+    ("function w1(n) { return w2(n) }\nfunction w2(n) { x = %s\n return x }\nBEGIN { print w1(0) }", 2),
+    ("function w1(n) { return match (n) { _ => %s } }\nEND { print w1(0) }", 2),
+    ("BEGIN { print match (1) { 1 => match (2) { 2 => %s } } }", 2),
+    ("function w1(n) { return match (n) { _ => match (1) { 1 => %s } } }\nBEGINFILE { print w1(0) }", 3),
+    ("function w1(n) { return w2(n) }\nfunction w2(n) { return w3(n) }\nfunction w3(n) { return %s }\nmatch (1) { 1 => w1(0) } { print \"body\" }", 4),
+    ("function w1(n) { return match (n) { _ => w2(n) } }\nfunction w2(n) { return match (n) { _ => w3(n) } }\nfunction w3(n) { return [%s] }\nBEGIN { x = w1(1) }", 5),
+]
+
+
+def nested_match(depth, inner="1"):
+    return "match(1){1=>" * depth + inner + "}" * depth
+
+
+def recursion_cases(rng, quick, limit):
+    """(tag, prog, inputs, selectors)"""
+    out = []
+    for funcs in RUNAWAY_FUNCS:
+        entries = RUNAWAY_ENTRIES if not quick else rng.sample(RUNAWAY_ENTRIES, 9)
+        for tmpl, below in entries:
+            out.append(("recursion", funcs + "\n" + tmpl % "f(1)", ["[1]"], []))
+    # finite recursion ending within two frames of the limit, every shape of the C20 check, every offset
+    try:
+        from checks.c20 import SHAPES, call_text
+    except Exception:
+        SHAPES, call_text = {}, None
+    for shape, (funcs, per) in SHAPES.items():
+        for tmpl, below in (RUNAWAY_ENTRIES if not quick else rng.sample(RUNAWAY_ENTRIES, 4)):
+            base = (limit - below) // per
+            for d in (base - 1, base, base + 1, base + 2):
+                out.append(("recursion", funcs + "\n" + tmpl % call_text(shape, d), ["[1]"], []))
+    # syntactically nested match expressions: every frame is a match frame
+    for d in (limit - 2, limit - 1, limit, limit + 1, limit + 2):
+        out.append(("nested-match", "BEGIN { print " + nested_match(d) + " }", [], []))
+        out.append(("nested-match", "{ print }", ["[1]"], [nested_match(d)]))
+        out.append(("nested-match", "function f(n) { return " + nested_match(d - 1, "n") + " }\n{ print f($) }", ["[1, 2]"], []))
+        out.append(("nested-match", nested_match(d) + " { print \"body\", $ }", ["[7]"], []))
+        out.append(("nested-match", "BEGIN { x = " + nested_match(d, "{ exit }") + " }", [], ["$"]))
+    return out
+
+
+# ---- index stress: every receiver kind x every index magnitude/kind x read, store, ++, +=, nested, and $-paths on input
+IDX_RECEIVERS = [("\"\"", 0), ("\"abc\"", 3), ("\"é\"", 2), ("\"héllo wörld\"", 13), ("[]", 0), ("[1, 2, 3]", 3), ("[[1, 2], \"ab\", {k: [7]}]", 3),
+                 ("{a: 1, k: [1, 2]}", 2), ("{}", 0), ("5", 1), ("null", 0), ("true", 0), ("/ab/", 2), ("unset_receiver", 0), ("lab", 0), ("printf", 0)]
+IDX_FIXED = ["0", "1", "2", "-1", "-2", "-3", "-4", "0.5", "-0.5", "1.9", "-1.9", "(1000000000 * 1000000000)", "(-1000000000 * 1000000000)",
+             "9223372036854775808", "-9223372036854775808", "9223372036854775807", "4294967296", "-4294967297", "2147483648",
+             "num(\"nan\")", "num(\"inf\")", "num(\"-inf\")", "\"0\"", "\"x\"", "\"k\"", "\"\"", "true", "null", "[1]", "{}", "/a/", "unset_index", "-0"]
+IDX_OPS = [
+    "print r[%s]", "x = r[%s]\n print x, r", "r[%s] = 1\n print r", "r[%s]++\n print r", "y = ++r[%s]\n print y, r", "y = r[%s]--\n print y", "r[%s] += 1\n print r",
+    "print r[%s][%s]", "r[%s][%s] = 1\n print r", "print r[%s].k", "r[%s].k = 1\n print r", "print r[%s].length()", "print r[%s] is string, r[%s] is null",
+    "for (v in r[%s]) { print v }", "print match (r[%s]) { null => \"n\", q => q }", "print json(r[%s])", "z = [r[%s], r[%s]]\n print z",
+]
+IDX_DOCS = ["[\"abc\", \"\", \"é\"]", "[[1, 2, 3], [], [[1]]]", "[{\"a\": 1, \"s\": \"abc\", \"l\": [1, 2]}, {}]", "\"abc\"", "\"\"", "[5, null, true]",
+            "{\"s\": \"abc\", \"l\": [1, 2, 3]}", "7", "null"]
+IDX_DOLLAR_OPS = ["{ print $[%s] }", "{ print $.s[%s], $.l[%s] }", "{ $[%s] = 1\n print $ }", "{ $[%s]++\n print $ }", "{ $.s[%s] = \"z\"\n print $ }",
+                  "{ print $[%s][%s] }", "{ $[%s][%s] += 1\n print $ }", "BEGINFILE { print $[%s] }\nENDFILE { print $[%s] }", "$[%s] { print \"hit\", $ }"]
+
+
+def index_cases(rng, quick):
+    out = []
+    for recv, n in IDX_RECEIVERS:
+        idxs = IDX_FIXED + ["%d" % v for v in {n - 1, n, n + 1, -n, -n - 1, -n - 2}]
+        for op in IDX_OPS:
+            for i in (rng.sample(idxs, 9) if quick else idxs):
+                init = "" if recv == "unset_receiver" else "r = %s\n " % recv
+                if recv in ("lab", "printf"):
+                    # a function cannot be stored: index it where it stands
+                    body = op.replace("r[", recv + "[").replace(", r", "").replace("print r", "print 1")
+                    init = ""
+                else:
+                    body = op
+                body = body.replace("%s", i)
+                prog = "function lab(s) { return s }\nBEGIN { print \"start\"\n %s%s\n print \"done\" }" % (init, body)
+                out.append(("index", prog, [], []))
+    for doc in IDX_DOCS:
+        for op in IDX_DOLLAR_OPS:
+            for i in (rng.sample(IDX_FIXED, 6) if quick else IDX_FIXED):
+                i = i.replace("unset_index", "u")
+                out.append(("index", op.replace("%s", i) + "\nEND { print \"done\" }", [doc], []))
+        for i in (rng.sample(IDX_FIXED, 8) if quick else IDX_FIXED):
+            if "unset" in i:
+                continue
+            out.append(("index", "{ print }", [doc], ["$[%s]" % i]))
+            out.append(("index", "{ print }", [doc], ["$.s[%s]" % i, "$[%s][%s]" % (i, i)]))
+    return out
+
+
 def planted_programs():
     """The finite family (a): every control statement x wrapper x rule context, every expression form x context."""
     out = []
@@ -185,6 +304,15 @@ def rand_inputs(rng):
     return []
 
 
+def call_depth_limit():
+    try:
+        src = open(os.path.join(VERIF, "coq", "theories", "Gen", "Generated.v")).read()
+        n = int(re.search(r"Definition\s+call_depth_limit\s*:\s*Z\s*:=\s*([0-9]+)", src).group(1))
+        return n if 100 <= n <= 10000 else 4096
+    except Exception:
+        return 4096
+
+
 def enc(s):
     """program / selector / input text -> bytes (arbitrary bytes travel as surrogate escapes, as in jqlib.hx)"""
     return s if isinstance(s, bytes) else s.encode("utf-8", "surrogateescape")
@@ -203,7 +331,10 @@ class C01(Check):
     props = ["C01_legal.v"]
     rule = ("(a) next/exit/return/break/continue planted in every position: BEGIN/END/BEGINFILE/ENDFILE/pattern bodies, rule patterns and "
             "loop headers and every operand slot (through match blocks), function bodies reached from every rule kind, nested loops, "
-            "selectors; (b) random grammatical programs; (c) token-level mutants and truncations of (a),(b) and the repository seeds; "
+            "selectors; recursion into the call-depth limit (16 runaway shapes and 8 finite shapes ending within two frames of the limit x 17 ways of "
+            "entering with 0-5 frames below, limit-2..limit+2 syntactically nested match expressions as program, pattern, function and selector); "
+            "index stress (16 receiver kinds x 39 index values incl. negative, past the end, fractional, 1e18, 2^63, NaN, non-numbers x 17 "
+            "read/store/++/+=/nested forms, and $-paths and selectors on 9 input documents); (b) random grammatical programs; (c) token-level mutants and truncations of (a),(b) and the repository seeds; "
             "(d) random bytes and the repository's test/fuzz seeds; inputs valid/JSONL/malformed/empty, 0-2 selectors. "
             "non-trivial = the program text is not empty and (it parses or at least one rule or selector ran)")
 
@@ -233,6 +364,8 @@ class C01(Check):
                      "BEGIN { next }", "END { next }", "BEGINFILE { next }", "ENDFILE { next }", "{ next }"]:
             for inputs in ([], [""], [" \n"], ["[1]"], ["", ""], ["[]"]):
                 specs.append(("noinput", prog, inputs, list(rng.choice(SELECTOR_SETS[:5]))))
+        specs += recursion_cases(rng, quick, call_depth_limit())
+        specs += index_cases(rng, quick)
         nrand = 300 if quick else 30000
         base = []
         for _ in range(nrand):
@@ -285,7 +418,8 @@ class C01(Check):
             nontrivial = bool(prog.strip()) and (r.outcome != "syntax" or r.iolog != "-" or len(tokens(prog)) > 1)
             c = Case(cid, line, meta, nontrivial, (tag,))
             # (a million-element auto-fill is a single step for the implementation, not for the model's lists)
-            if (cid not in light or "1000000" in prog) and not abnormal(r):
+            # (thousands of nested match expressions: the model's parser needs minutes)
+            if (cid not in light or "1000000" in prog or tag == "nested-match" or len(prog) > 8000) and not abnormal(r):
                 # judged here, on the implementation alone: the extracted model is too slow for it
                 c.meta["impl_only"] = "output-heavy or slow (%s, %d bytes of output)" % (r.outcome, len(r.stdout))
                 c.meta["line"] = line
@@ -304,7 +438,7 @@ class C01(Check):
         stats["impl_only_cases"] = sum(1 for c in ctx["cases"] if "impl_only" in c.meta)
         # (2) a sample through the binary
         impl = ctx["impl"]
-        pool = [c for c in ctx["cases"] if c.line and "prog" in c.meta]
+        pool = [c for c in ctx["cases"] if "prog" in c.meta and "inputs" in c.meta and (c.line or "nested-match" in c.tags)]
         cand = []
         for c in pool:
             r = RunRes(impl.get(c.id, []))
@@ -316,9 +450,13 @@ class C01(Check):
         forced = [c for c in cand if "noinput" in c.tags or "planted-selector" in c.tags or "selector" in c.tags]
         rng.shuffle(forced)
         sample = forced[:n // 3]
+        # recursion into the call-depth limit: all of them (quick: 150), the limit must be an ordinary error in the tool too
+        deep = [c for c in pool if "recursion" in c.tags or "nested-match" in c.tags]
+        rng.shuffle(deep)
+        sample += deep[:150] if tier == "quick" else deep
         chosen = set(sample)
         rest = [c for c in cand if c not in chosen]
-        sample += rng.sample(rest, min(len(rest), n - len(sample)))
+        sample += rng.sample(rest, max(0, min(len(rest), n - len(forced[:n // 3]))))
         modes = ["plain", "plain", "o-", "ofile", "argprog", "stdin"]
         jobs = [(c, rng.choice(modes)) for c in sample]
         with Scratch() as sc:
